@@ -278,6 +278,9 @@ type fxTransport struct {
 	updates bool // implement DialUpdater behaviour
 	hook    func(rec *fxDial, begin bool)
 	rm      network.ResourceManager // optional: connections get a real scope (opened here, as the upgrader does)
+	// scopeEarly (with rm): the connection scope is opened when the dial STARTS, as the TCP transport does
+	// (dialWithScope), and released when the dial fails or is cancelled
+	scopeEarly bool
 }
 
 func fxNewTransport(name string, local fxIdent, proxy bool, codes ...int) *fxTransport {
@@ -310,6 +313,25 @@ func (t *fxTransport) dial(ctx context.Context, raddr ma.Multiaddr, p peer.ID, u
 	if t.hook != nil {
 		t.hook(rec, true)
 		defer t.hook(rec, false)
+	}
+	var early network.ConnManagementScope
+	if t.rm != nil && t.scopeEarly {
+		sc, err := t.rm.OpenConnection(network.DirOutbound, true, raddr)
+		if err != nil {
+			rec.End, rec.Result = vs.Stamp(), fxFail
+			return nil, err
+		}
+		if err := sc.SetPeer(p); err != nil {
+			sc.Done()
+			rec.End, rec.Result = vs.Stamp(), fxFail
+			return nil, err
+		}
+		early = sc
+		defer func() {
+			if early != nil {
+				early.Done() // the dial did not produce a connection
+			}
+		}()
 	}
 	ch := t.outcomeCh(raddr.String())
 	for {
@@ -348,7 +370,9 @@ func (t *fxTransport) dial(ctx context.Context, raddr ma.Multiaddr, p peer.ID, u
 			name := fmt.Sprintf("%s#%d", t.name, t.nconn)
 			t.mu.Unlock()
 			c := fxNewConn(name, t, t.local, remote, raddr, t.limited)
-			if t.rm != nil {
+			if early != nil {
+				c.scope, early = early, nil
+			} else if t.rm != nil {
 				sc, err := t.rm.OpenConnection(network.DirOutbound, true, raddr)
 				if err != nil {
 					rec.End, rec.Result = vs.Stamp(), fxFail
